@@ -363,6 +363,9 @@ func TestC11(t *testing.T) {
 		} else {
 			labels = append(labels, "held-at-first-command")
 		}
+		for ; s38Excluded > 0; s38Excluded-- {
+			col.Excluded("S38: top-level member named _id / _orda_ver_ (renamed)")
+		}
 		col.Case(lateRelease || outOfOrder, canon.String(), labels, func() interface{} {
 			return map[string]interface{}{"kinds": kinds, "actions": canon.String(), "snapshots_stored": nsnap}
 		})
@@ -404,4 +407,43 @@ func c11DocKey(w *l1World) *l1Key {
 		}
 	}
 	return nil
+}
+
+// TestC11KnownS38 re-demonstrates known finding S38: a top-level member of a Map or Document that is
+// called like one of the two fields the server itself writes into the user-visible document.
+func TestC11KnownS38(t *testing.T) {
+	col := stats.New("C11", t.Name(), "minimal probe of known finding S38: a Map with a member named _orda_ver_ (and one named a), pushed and snapshotted; the user-visible document is compared with the JSON view of the log replay")
+	defer col.Flush()
+	w, err := newL1World(38, []sim.Kind{sim.Map})
+	if err != nil {
+		fmt.Printf("HARNESS-ERROR: %v\n", err)
+		t.Fatalf("%v", err)
+	}
+	defer w.close()
+	cl, err := w.addClient()
+	if err != nil {
+		fmt.Printf("HARNESS-ERROR: %v\n", err)
+		t.Fatalf("%v", err)
+	}
+	k := w.keys[0]
+	d := w.open(cl, k, "create")
+	sim.Exec(sim.Map, d.dt, sim.Call{M: "Put", Key: "_orda_ver_", Vals: []sim.Val{sim.S("mine")}})
+	sim.Exec(sim.Map, d.dt, sim.Call{M: "Put", Key: "a", Vals: []sim.Val{sim.I(1)}})
+	if ex := w.syncClient(cl); ex == nil || exchangeProblem(cl, ex) != nil {
+		fmt.Printf("HARNESS-ERROR: the push failed\n")
+		t.Fatalf("push failed")
+	}
+	w.env.WaitBackground(5 * time.Second)
+	cerr := w.checkSnapshots()
+	col.Bulk(1, 0)
+	reproduced := cerr != nil && strings.Contains(cerr.Error(), "_orda_ver_")
+	switch {
+	case reproduced && isOpen("S38"):
+		reportKnown(col, "C11", "S38", "a Map member named _orda_ver_ is missing from the user-visible document (the server writes the recorded version under that name): "+firstLineOf(cerr.Error()))
+	case cerr != nil:
+		j := &Journal{Property: "C11", Test: t.Name(), Header: "map: Put(_orda_ver_, \"mine\"); Put(a, 1); Sync; background snapshot update"}
+		enumFail(t, "C11", j, "%v", cerr)
+	case isOpen("S38"):
+		col.Note("known finding S38 no longer reproduces")
+	}
 }
